@@ -14,8 +14,8 @@ from onl.sim.core import EmptySchedule
 
 PROPERTY = "C03"
 CLAUSES = ["C03.split", "C03.until_num", "C03.until_ev", "C03.repro"]
-RULE = ("every kernel program of <= Dp executed instructions (timeouts, shared event, join, interrupt, spawn) and 6 fixed "
-        "network scenarios, each under every plan of <= S stops drawn from {step(), run(until=t) for every due instant t and "
+RULE = ("every kernel program of <= Dp executed instructions (timeouts, shared event, join, interrupt, spawn) and 8 fixed "
+        "network scenarios (incl. TCP with timers, scheduler/port monitors, string class ids), each under every plan of <= S stops drawn from {step(), run(until=t) for every due instant t and "
         "t+1/4 (and one t<=now that must be refused), run(until=e) for every shared event / process that succeeds in the "
         "uninterrupted run} followed by run() to the end; non-trivial = a stop coincided with a due occurrence or an "
         "until-event had a waiter registered after the run() call; distinct = distinct (program, plan)")
@@ -25,7 +25,7 @@ ASSUMPTIONS = [
     "stopping on an event that fails, or that is never triggered, is outside the statement and not driven",
 ]
 OPS = ["ret", ("T", 0), ("T", 1), ("T", 2), ("W", 0, True), ("S", 0), ("J", True), "I", "Sp"]
-NSCEN = 6
+NSCEN = 8
 
 
 def plan(tier, seed):
@@ -166,12 +166,23 @@ def execute(ch, cfg):
 
 
 # ---- network scenarios ------------------------------------------------------------------------------
+trace_extra = []      # functions returning additional trace entries (monitor samples) to append when a run is over
+
+
+def finish_trace(trace):
+    for f in trace_extra:
+        trace.extend(f())
+    return trace
+
+
 def scenario(sc, env):
     """builds scenario `sc` on env; returns the trace list that taps append to"""
     from onl.packet import DistPacketGenerator, PacketSink
     from onl.netdev import Port, Wire, TokenBucket, Hub
     from onl.scheduler import WFQ, DRR
     trace = []
+    extra = trace_extra
+    del extra[:]
 
     class Tap:
         def __init__(self, name, nxt=None):
@@ -204,6 +215,27 @@ def scenario(sc, env):
         a = gen("g0", [1, 0, 1], [1000, 2000], 0); b = gen("g1", [0, 1, 2], [3000, 1000], 1)
         d = DRR(env, 8000, {0: 1, 1: 2})
         a.out = Tap("in0", d); b.out = Tap("in1", d); d.out = Tap("out", sink)
+    elif sc == 6:
+        # monitors keep sampling on their own clock whatever else is (not) pending; samples are part of the trace
+        from onl.scheduler import Monitor
+        from onl.netdev import PortMonitor
+        a = gen("g0", [1, 0, 2], [2, 1], 0, finish=4); b = gen("g1", [0, 2, 1], [1, 2], 1, finish=4)
+        w = WFQ(env, 8, {0: 1, 1: 2})
+        port = Port(env, 16, 3, False, "p")
+        a.out = Tap("in0", w); b.out = Tap("in1", w); w.out = Tap("mid", port); port.out = Tap("out", sink)
+        mon = Monitor(env, w, lambda: 0.7, service_included=True)
+        pm = PortMonitor(env, port, lambda: 0.9, pkt_in_service_included=False)
+        env.process(pm.run())
+        extra.append(lambda: [("mon", tuple(sorted((k, tuple(v)) for k, v in mon.sizes.items()))), ("pmon", tuple(pm.sizes), tuple(pm.sizes_byte))])
+    elif sc == 7:
+        # class ids that are strings: nothing may depend on their hash order
+        names = {0: "voice", 1: "video", 2: "bulk"}
+        gens = [gen("g%d" % f, [1, 0, 1], [1000, 2000, 1500], f, finish=5) for f in range(3)]
+        d = DRR(env, 8000, {"voice": 1, "video": 2, "bulk": 3}, flow2class=lambda f: names[f])
+        w = WFQ(env, 8000, {"voice": 1, "video": 2, "bulk": 3}, flow2class=lambda f: names[f])
+        for g in gens:
+            g.out = Tap("in", d)
+        d.out = Tap("mid", w); w.out = Tap("out", sink)
     elif sc == 5:
         from onl.packet import TCPPacketGenerator, TCPSink, TCPReno
         from onl.packet.tcp_generator import Flow
@@ -226,8 +258,9 @@ def exec_net(ch, cfg):
     env = Environment()
     trace = scenario(cfg["scenario"], env)
     env.run(until=40)
-    base = list(trace)
-    dues = sorted(set(x[0] for x in base))[:7]
+    nbase = len(trace)
+    base = list(finish_trace(trace))
+    dues = sorted(set(x[0] for x in base[:nbase]))[:7]
     menu = [("step",)] + [("t", t) for t in dues if t > 0] + [("t", t + 0.25) for t in dues] + [("t", 0)]
     stops = []
     for i in range(cfg["S"]):
@@ -259,15 +292,16 @@ def exec_net(ch, cfg):
                     except ValueError:
                         pass
                 else:
-                    if any(x[0] == t for x in base):
+                    if any(x[0] == t for x in base[:nbase]):
                         res.nontrivial = True
                     env.run(until=t)
-                    exp = [x for x in base if x[0] < t]
+                    exp = [x for x in base[:nbase] if x[0] < t]
                     if env.now != t or trace != exp:
                         res.bad("C03.until_num", "network-trace-at-return-differs", "%s run(until=%r): now=%r, %d taps vs %d" % (tag, t, env.now, len(trace), len(exp)))
                         return res
         if env.now < 40:
             env.run(until=40)
+        finish_trace(trace)
     except BaseException as e:  # noqa
         res.bad("C03.split", "split-run-raised-%s" % type(e).__name__, "%s plan %r: %r" % (tag, stops, e))
         return res
@@ -295,7 +329,7 @@ def digests(depth=3):
         env = Environment()
         tr = scenario(sc, env)
         env.run(until=40)
-        h.update(repr(tr).encode())
+        h.update(repr(finish_trace(tr)).encode())
     # hash-ordered containers in scope
     from onl.topo import FatTree
     ft = FatTree(4)
